@@ -94,6 +94,10 @@ class ExprMixin:
             return Val(ty, t_mk(ty, *parts))
         if ty.key in self.coercions and v.ty.key in self.coercions[ty.key]:
             return self.coercions[ty.key][v.ty.key](self, v)
+        if ty.key in self.coercions and "*" in self.coercions[ty.key]:
+            r = self.coercions[ty.key]["*"](self, v, node)
+            if r is not None:
+                return r
         raise Unsupported("cannot coerce %s to %s (%s)" % (v.ty, ty, what), node)
 
     def unify(self, a, b, node=None):
@@ -104,7 +108,9 @@ class ExprMixin:
             return a, b
         for x, y, flip in ((a, b, False), (b, a, True)):
             try:
-                if x.ty == TInt and y.ty == TReal:
+                if x.ty == TNone and y.ty.key in self.coercions and "None" in self.coercions[y.ty.key]:
+                    r = (self.coercions[y.ty.key]["None"](self, x), y)
+                elif x.ty == TInt and y.ty == TReal:
                     r = (self.coerce(x, TReal), y)
                 elif x.ty == TNone and isinstance(y.ty, TOpt):
                     r = (self.coerce(x, y.ty), y)
@@ -259,6 +265,19 @@ class ExprMixin:
             for _ in range(pushed):
                 self.guards.pop()
         tys = {v.ty.key for v in vals}
+        if (len(vals) == 2 and isinstance(node.op, ast.Or) and isinstance(vals[0].ty, TOpt) and vals[0].ty.elem == vals[1].ty
+                and not isinstance(vals[1].ty, TObj)):
+            # `opt or default`: a None (or falsy) left operand is never the result
+            a, b = vals
+            return Val(b.ty, z3.If(self.truthy(a, node), o_val(a.t), b.t))
+        if len(tys) > 1 and len(vals) == 2 and not any(isinstance(v.ty, TObj) or v.ty == TBool for v in vals):
+            # value-returning `a or b` / `a and b` over unifiable types (e.g. d.get(k) or default)
+            try:
+                a, b = self.unify(vals[0], vals[1], node)
+                vals = [a, b]
+                tys = {a.ty.key}
+            except Unsupported:
+                pass
         if len(tys) == 1 and vals[0].ty != TBool and not isinstance(vals[0].ty, TObj):
             # value-returning form (x or default) over one type
             res = vals[-1]
@@ -425,6 +444,9 @@ class ExprMixin:
         if any(isinstance(e, ast.Starred) for e in node.elts):
             raise Unsupported("starred tuple display", node)
         vals = [self.eval(e, st) for e in node.elts]
+        if any(v.ty.key in ("None", "LambdaAst") or isinstance(v.ty, TObj) or not z3.is_expr(v.t) for v in vals):
+            # heterogeneous tuple of non-sorted values: kept Python-side (hash tuples)
+            return Val(TU("PyTuple"), tuple(vals))
         ty = TTuple([v.ty for v in vals])
         return Val(ty, t_mk(ty, *[v.t for v in vals]))
 
@@ -557,4 +579,5 @@ class ExprMixin:
         raise Unsupported("f-string", node)
 
     def e_Lambda(self, node, st):
-        raise Unsupported("lambda value", node)
+        # a lambda is a value only where the sidecar knows what to do with it (coercion to a callable sort)
+        return Val(TU("LambdaAst"), (node, st))
